@@ -335,10 +335,12 @@ func (t *Tokenizer) tokenizeBuffer(buf []byte, last bool) error {
 				t.mode = dotMap
 				continue
 			}
+			t.mode = dotMap
 			for i, b = range buf[off+1:] {
 				if digitMap[b] != numDigit {
 					break
 				}
+				t.mode = fracMap
 				t.num.Frac = t.num.Frac*10 + uint64(b-'0')
 				t.num.Div *= 10.0
 				if math.MaxInt64 < t.num.Frac {
@@ -350,7 +352,6 @@ func (t *Tokenizer) tokenizeBuffer(buf []byte, last bool) error {
 			if digitMap[b] == numDigit {
 				off++
 			}
-			t.mode = fracMap
 		case numFrac:
 			t.num.AddFrac(b)
 			t.mode = fracMap
